@@ -1,5 +1,6 @@
 import CM.Lib.Wire
 import CM.Model.RateLimit
+import CM.Generated.Fn
 /-!
 Driver handler for C17.
 
@@ -137,9 +138,19 @@ def applyEv (m : Sim) (e : SEv) : Sim :=
     let hit := isOffering m.st.phase
     (m.doStep (.allow w)).emit ("L" ++ toString w ++ ":" ++ (if hit then "1" else "0"))
   | .setMax n =>
+    -- the definition the function translator printed from the source on this run (CM/Generated/Fn),
+    -- run beside the model's step; a disagreement spoils the token, hence the comparison
+    let g := CM.Gen.Fn.RingBufferRateLimiter_SetMaxEvents (τ := Option Nat)
+      ⟨Int.ofNat m.st.W, m.st.ring, Int.ofNat m.st.cursor⟩ (Int.ofNat n)
+    let agree := !(CM.Gen.Fn.translated.contains "RingBufferRateLimiter.SetMaxEvents") ||
+      (match step m.st (.setMax n), g with
+        | some s', some r => r.ring == s'.ring && r.cursor == Int.ofNat s'.cursor
+        | none, none => true
+        | _, _ => false)
+    let sfx := if agree then "" else "-translated-definition-differs"
     match step m.st (.setMax n) with
-    | some s' => { m with st := s' }.emit "M"
-    | none => m.emit "M!"
+    | some s' => { m with st := s' }.emit ("M" ++ sfx)
+    | none => m.emit ("M!" ++ sfx)
   | .setWin d =>
     match step m.st (.setWindow d) with
     | some s' => { m with st := s' }.emit "W"
